@@ -131,6 +131,20 @@ def synthetic_scheme_text(key):
     text = 'patterns:\n' + '\n'.join(pats) + '\n'
     if descs:
         text += 'other_descriptors:\n' + '\n'.join(descs) + '\n'
+    # the two other kinds of correction descriptor a scheme file may declare
+    r2 = random.Random('c02syn2:%s' % key)
+    for sec, fld, table in (('smarts_based_descriptors', 'smarts',
+                             S.SMARTS_TABLE),
+                            ('smiles_based_descriptors', 'smiles',
+                             S.SMILES_TABLE)):
+        k = r2.choice([0, 1, 2, 3])
+        if k:
+            text += sec + ':\n'
+            for j, pat_ in enumerate(r2.sample(sorted(table), k)):
+                text += "-   name: %s\n    %s: '%s'\n    useChirality: " \
+                        "false\n" % (libfiles.q('%s%d' % (fld[:3], j) if
+                                                 r2.random() < 0.8 else 'CC'),
+                                      fld, pat_)
     if remaps:
         text += 'remaps:\n' + '\n'.join(remaps) + '\n'
     return text
@@ -150,9 +164,15 @@ def get_scheme(spec):
         text = synthetic_scheme_text(spec[1])
         with libfiles.TempTree() as tree:
             p = tree.write('scheme.yaml', text)
-            real = GroupAdditivityScheme.Load(p)
+            lo = observe(GroupAdditivityScheme.Load, p)
         data = yaml.safe_load(text)
         _syn[spec[1]] = text
+        if 'exc' in lo:
+            _real[key] = ('load failed', lo, sorted(
+                k for k in data if k != 'patterns'))
+            _refs[key] = None
+            return _real[key], None
+        real = lo['ok']
     _real[key] = real
     _refs[key] = S.SchemeRef(data)
     return real, _refs[key]
@@ -180,6 +200,13 @@ def per_atom_of(m):
 def check_case(ctx, case):
     spec, smi = case['scheme'], case['smiles']
     real, ref = get_scheme(spec)
+    if ref is None:
+        ctx.violation('a scheme file in the documented layout cannot be '
+                      'loaded (%s)' % real[1]['exc'],
+                      {'scheme': spec, 'smiles': smi},
+                      {'msg': real[1]['msg'], 'sections': real[2],
+                       'scheme_text': _syn.get(spec[1], '')[:3000]})
+        return
     hook_mol(real)
     o = observe(real.GetDescriptors, smi)
     ctx.evals()
@@ -216,7 +243,8 @@ def check_case(ctx, case):
         ctx.count('fused_alternating_rings')
     facts = R.Facts(M)
     try:
-        want, per_atom, fired = ref.decompose(M, facts)
+        want, per_atom, fired = ref.decompose(
+            M, facts, clean=Chem.MolFromSmiles(smi))
         ref_err = None
     except S.DecompositionError as e:
         want = None
